@@ -677,7 +677,7 @@ def _step(run, P):
                 and len(it_.args) == 1 and not it_.keywords:
             it_ = it_.args[0]
         if isinstance(gen.target, ast.Tuple) and len(gen.target.elts) == 2 \
-                and norm(it_) == "dag.phases.items()" and not gen.ifs:
+                and norm(it_) == f"{fc.arg(0)}.phases.items()" and not gen.ifs:
             kname, pname = (e.id for e in gen.target.elts)
             v = c.value
             if isinstance(c.key, ast.Name) and c.key.id == kname and isinstance(v, ast.Tuple) \
@@ -1505,7 +1505,7 @@ def _genfunc(run, P):
     call = P.func(f"{PYGEN}.__call__")
     g = CFG(call.node)
     loops = [n for n in ast.walk(call.node) if isinstance(n, ast.For)
-             and "dag.phases" in ast.unparse(n.iter)]
+             and f"{call.arg(0)}.phases" in ast.unparse(n.iter)]
     if len(loops) != 1:
         raise AnalysisError("python CodeGenerator.__call__: loop over phases not found")
     lp = loops[0]
